@@ -31,7 +31,7 @@ type c07Desc struct {
 	T       int64      `json:"timeout_ms"`
 }
 
-var c07RtSteps = []string{"next", "next", "next", "respond", "respond", "respond-stale", "respond-garbage", "respond-twice", "respond-oversize", "error", "error-badtype", "initerror", "restorenext", "two-next", "half-body", "unknown-route", "bad-method", "ext-register", "stall", "short-stall", "exit0", "exit1", "sigsegv", "ignore-term"}
+var c07RtSteps = []string{"next", "next", "next", "respond", "respond", "respond-stale", "respond-garbage", "respond-twice", "respond-oversize", "error", "error-badtype", "initerror", "restorenext", "two-next", "half-body", "half-body-stall", "unknown-route", "bad-method", "ext-register", "stall", "short-stall", "exit0", "exit1", "sigsegv", "ignore-term"}
 var c07ExtSteps = []string{"register", "register", "register-bad", "register-twice", "next", "next", "next-badid", "next-noid", "initerror", "exiterror", "rt-next", "rt-respond", "stall", "short-stall", "exit0", "exit1", "sigkill", "ignore-term", "unknown-route"}
 
 func genC07(tier string, seed int64) []Case {
@@ -237,6 +237,22 @@ func runC07(c *Ctx, d c07Desc) {
 							id = staleID
 						}
 						rawHalfBody(w.E.Addr, "/2018-06-01/runtime/invocation/"+id+"/response")
+					case "half-body-stall":
+						// a legal response for the current id whose upload stops half-way and stays open until the process dies
+						fault(p, s)
+						id := cur
+						if id == "" {
+							id = staleID
+						}
+						if conn, err := net.DialTimeout("tcp", w.E.Addr, time.Second); err == nil {
+							fmt.Fprintf(conn, "POST /2018-06-01/runtime/invocation/%s/response HTTP/1.1\r\nHost: x\r\nContent-Length: 1000\r\nContent-Type: application/json\r\n\r\n{\"partial\":", id)
+							go func() {
+								<-p.Ctx.Done()
+								conn.Close()
+							}()
+						}
+						<-p.Ctx.Done()
+						return
 					case "unknown-route":
 						pt.Call("unknown", "PUT", "/2018-06-01/runtime/whatever", nil, []byte("x"))
 					case "bad-method":
